@@ -56,9 +56,80 @@ Proof.
   assert (Hf11 : fetch im (P + 11) = Some (I2 OC_MOVEQ (POperand o) (PReg R_OPERAND))) by (unfold P; at_pc H11).
   assert (Hf12 : fetch im (P + 12) = Some (I1 OC_DNEXT (PLoopVar LV_CURRENT))) by (unfold P; at_pc H12).
   assert (Hf13 : fetch im (P + 13) = Some (jump JC_ALWAYS (- (5 + 1 + 7)))) by (destruct Htest as [-> | ->]; unfold P; at_pc H13).
-  destruct (scan_loop im ss s d r o test_src l (m_stack s) P Hsim eq_refl Hscan (names_of_sorted o (m_world s)) Htest
-              Hf0 Hc1 Hf5 Hc6 Hf10 Hf11 Hf12 Hf13 l [] rf2 lv k (eq_sym (app_nil_r l)) Hsb2 (rf_get_set_same _ _ _) HlC)
-    as (n & rf' & lv' & En & Hsb' & HlC' & HlI').
+  assert (Hnext : forall pc rf lv1 stk c, fetch im pc = Some (I1 OC_DNEXT (PLoopVar LV_CURRENT)) ->
+            rf_get rf R_OPERAND = Some (VOperand o) -> rf_get rf R_DISC_FORWARD = Some (VBool false) ->
+            lv_get lv1 LV_CURRENT = Some (VStr c) -> lv_get lv1 LV_FIRST = lv_get lv LV_FIRST -> In c l ->
+            esteps 1 im (mk s pc rf lv1 d r stk) = Some (mk s (pc + 1) (rf_set rf R_RESULT (or_null (sl_prev l c))) lv1 d r stk, [])).
+  { intros pc rf lv1 stk c Hf Ho Hd Hcur _ _. exact (st_dnext im s d r pc rf lv1 stk o l c Hf Ho Hd Hcur Hl Hscan). }
+  destruct (scan_loop im ss s lv d r o test_src l (m_stack s) P (I1 OC_DNEXT (PLoopVar LV_CURRENT)) Hsim (names_of_sorted o (m_world s)) Hnext Htest
+              Hf0 Hc1 Hf5 Hc6 Hf10 Hf11 Hf12 Hf13 l [] rf2 lv k (eq_sym (app_nil_r l)) Hsb2 (rf_get_set_same _ _ _) HlC eq_refl)
+    as (n & rf' & lv' & En & Hsb' & HlC' & HlI' & _).
+  exists (1 + (1 + n))%nat, (mk s (P + 14) rf' lv' d r (map VStr l ++ m_stack s)), lv'.
+  split.
+  { replace (@nil event) with (@nil event ++ (@nil event ++ @nil event)) by reflexivity.
+    eapply esteps_app; [exact E0|eapply esteps_app; [exact E1|]].
+    replace (m_pc s + 1 + 1) with P by (unfold P; lia). exact En. }
+  split; [exact (sim_mk ss s (P + 14) rf' lv' lv d r _ Hsim Hfr Hsb')|].
+  split; [cbn [mk m_pc]; unfold P; lia|]. split; [reflexivity|]. split; [reflexivity|]. split; [exact HlC'|exact HlI'].
+Qed.
+
+Definition members_of (o : Codes.operand) (w : world) (nm : value) : list string :=
+  match set_members o w nm with Some l => l | None => [] end.
+Lemma members_of_sorted o w nm : StronglySorted str_lt (members_of o w nm).
+Proof.
+  unfold members_of, set_members. destruct (as_name nm) as [n|]; [|constructor]. destruct o; try constructor.
+  - destruct (group_lights w n) as [l|] eqn:E; [exact (proj1 (members_each_once l_group w n l E))|constructor].
+  - destruct (location_lights w n) as [l|] eqn:E; [exact (proj1 (members_each_once l_loc w n l E))|constructor].
+Qed.
+
+(* the scan over the members of a group or location whose name is in FIRST: OPERAND := o; DISCM; the same loop with DNEXTM *)
+Lemma scan_members_names im ss s o lv d r k nm :
+  (o = OD_GROUP \/ o = OD_LOCATION) ->
+  sim ss s -> m_frames s = FLoop lv d :: r -> lv_get lv LV_COUNTER = Some (VInt k) -> lv_get lv LV_FIRST = Some nm ->
+  code_at im (m_pc s) (scan_members o) ->
+  exists n s' lv', esteps n im s = Some (s', []) /\ sim ss s' /\ m_pc s' = m_pc s + 16 /\ m_frames s' = FLoop lv' d :: r /\
+                   m_stack s' = map VStr (members_of o (m_world s) nm) ++ m_stack s /\
+                   lv_get lv' LV_COUNTER = Some (VInt (k + Z.of_nat (length (members_of o (m_world s) nm)))) /\
+                   lv_get lv' LV_INCR = lv_get lv LV_INCR.
+Proof.
+  intros Hscan Hsim Hfr HlC HlF Hc.
+  set (test_src := PLoopVar LV_CURRENT). assert (Htest : test_src = PLoopVar LV_CURRENT \/ test_src = PReg R_RESULT) by (left; reflexivity).
+  set (l := members_of o (m_world s) nm) in *. set (P := m_pc s + 2).
+  unfold scan_members, scan, test_op, op_equals in Hc. cbn [app code_at push_of] in Hc.
+  destruct Hc as (Hm & Hdisc & H0 & H1 & H2 & H3 & H4 & H5 & H6 & H7 & H8 & H9 & H10 & H11 & H12 & H13 & _).
+  pose proof (mk_self s lv d r Hfr) as Hself.
+  (* OPERAND := o; DISC *)
+  pose proof (st_moveq_reg im s d r (m_pc s) (m_regs s) lv (m_stack s) (POperand o) R_OPERAND (VOperand o) Hm eq_refl eq_refl) as E0. rewrite Hself in E0.
+  set (rf1 := rf_set (m_regs s) R_OPERAND (VOperand o)) in *.
+  assert (Hsb1 : same_but_scratch rf1 (m_regs s)) by (apply sbs_set; [apply sbs_refl|reflexivity]).
+  assert (Hd1 : rf_get rf1 R_DISC_FORWARD = Some (VBool false)) by (rewrite (Hsb1 R_DISC_FORWARD eq_refl); exact (sim_disc _ _ Hsim)).
+  pose proof (st_discm im s d r (m_pc s + 1) rf1 lv (m_stack s) o nm Hdisc (rf_get_set_same _ _ _) Hd1 HlF Hscan) as E1.
+  assert (Hres : match set_members o (m_world s) nm with Some l0 => or_null (last_name l0) | None => VOperand OD_NULL end = name_or_null (last_name l)).
+  { unfold l, members_of. destruct (set_members o (m_world s) nm) as [l0|]; [destruct (last_name l0); reflexivity|reflexivity]. }
+  rewrite Hres in E1.
+  set (rf2 := rf_set rf1 R_RESULT (name_or_null (last_name l))) in *.
+  assert (Hsb2 : same_but_scratch rf2 (m_regs s)) by (apply sbs_set; [exact Hsb1|reflexivity]).
+  (* the loop *)
+  assert (Hf0 : fetch im P = Some (I2 OC_MOVE (PReg R_RESULT) (PLoopVar LV_CURRENT))) by (unfold P; at_pc H0).
+  assert (Hc1 : code_at im (P + 1) (test_op OP_NOTEQ test_src (POperand OD_NULL))).
+  { unfold test_op. cbn [code_at push_of]. unfold P. repeat split; [at_pc H1|at_pc H2|at_pc H3|at_pc H4]. }
+  assert (Hf5 : fetch im (P + 5) = Some (jump JC_IF_FALSE (7 + 2))) by (unfold P; at_pc H5).
+  assert (Hc6 : code_at im (P + 6) (op_equals OP_ADD (PLoopVar LV_COUNTER) (PInt 1))).
+  { unfold op_equals. cbn [code_at push_of]. unfold P. repeat split; [at_pc H6|at_pc H7|at_pc H8|at_pc H9]. }
+  assert (Hf10 : fetch im (P + 10) = Some (I1 OC_PUSH (PLoopVar LV_CURRENT))) by (unfold P; at_pc H10).
+  assert (Hf11 : fetch im (P + 11) = Some (I2 OC_MOVEQ (POperand o) (PReg R_OPERAND))) by (unfold P; at_pc H11).
+  assert (Hf12 : fetch im (P + 12) = Some (I2 OC_DNEXTM (PLoopVar LV_FIRST) (PLoopVar LV_CURRENT))) by (unfold P; at_pc H12).
+  assert (Hf13 : fetch im (P + 13) = Some (jump JC_ALWAYS (- (5 + 1 + 7)))) by (destruct Htest as [-> | ->]; unfold P; at_pc H13).
+  assert (Hnext : forall pc rf lv1 stk c, fetch im pc = Some (I2 OC_DNEXTM (PLoopVar LV_FIRST) (PLoopVar LV_CURRENT)) ->
+            rf_get rf R_OPERAND = Some (VOperand o) -> rf_get rf R_DISC_FORWARD = Some (VBool false) ->
+            lv_get lv1 LV_CURRENT = Some (VStr c) -> lv_get lv1 LV_FIRST = lv_get lv LV_FIRST -> In c l ->
+            esteps 1 im (mk s pc rf lv1 d r stk) = Some (mk s (pc + 1) (rf_set rf R_RESULT (or_null (sl_prev l c))) lv1 d r stk, [])).
+  { intros pc rf lv1 stk c Hf Ho Hd Hcur HlF1 Hin. rewrite HlF in HlF1.
+    assert (Hset : set_members o (m_world s) nm = Some l) by (unfold l, members_of in Hin |- *; destruct (set_members o (m_world s) nm); [reflexivity|contradiction]).
+    exact (st_dnextm im s d r pc rf lv1 stk o nm l c Hf Ho Hd Hcur HlF1 Hset Hscan). }
+  destruct (scan_loop im ss s lv d r o test_src l (m_stack s) P (I2 OC_DNEXTM (PLoopVar LV_FIRST) (PLoopVar LV_CURRENT)) Hsim (members_of_sorted o (m_world s) nm) Hnext Htest
+              Hf0 Hc1 Hf5 Hc6 Hf10 Hf11 Hf12 Hf13 l [] rf2 lv k (eq_sym (app_nil_r l)) Hsb2 (rf_get_set_same _ _ _) HlC eq_refl)
+    as (n & rf' & lv' & En & Hsb' & HlC' & HlI' & _).
   exists (1 + (1 + n))%nat, (mk s (P + 14) rf' lv' d r (map VStr l ++ m_stack s)), lv'.
   split.
   { replace (@nil event) with (@nil event ++ (@nil event ++ @nil event)) by reflexivity.
@@ -328,6 +399,201 @@ Lemma loop_frame_kept_any s4 s3 lv d r :
 Proof.
   intros H Hfk. injection H as H1 H2. split; [exact H1|].
   unfold fr in H2. rewrite Hfk in H2. exact (erase_loop_inv _ _ _ _ H2).
+Qed.
+
+(* ---- repeat in <lights, groups, locations joined by and> as x [with ...] ---- *)
+Definition plain_src (src : light_src) : bool := match src with SrcLight n | SrcGroup n | SrcLocation n => plain_rval mt n end.
+
+(* what one source contributes: a single light (any value but the empty one), or the members of a group / location *)
+Definition src_values (src : light_src) (f : nat) (ss : sstate) : sres (list value) :=
+  match src with
+  | SrcLight n => let* (x, s2) := eval_rval rt mt f false ss n in match x with VNone => RErr EAssert s2 | _ => ROk [x] s2 end
+  | SrcGroup n => let* (x, s2) := eval_rval rt mt f false ss n in ROk (map VStr (members_of OD_GROUP (s_world s2) x)) s2
+  | SrcLocation n => let* (x, s2) := eval_rval rt mt f false ss n in ROk (map VStr (members_of OD_LOCATION (s_world s2) x)) s2
+  end.
+
+Lemma eval_srcs_nil f ss : eval_srcs rt mt (S f) false ss [] = ROk [] ss.
+Proof. reflexivity. Qed.
+Lemma eval_srcs_cons f ss src r : eval_srcs rt mt (S f) false ss (src :: r) =
+  (let* (rest, s1) := eval_srcs rt mt f false ss r in let* (own, s2) := src_values src f s1 in ROk (own ++ rest) s2).
+Proof.
+  assert (E : eval_srcs rt mt (S f) false ss (src :: r) =
+    (let* (rest, s1) := eval_srcs rt mt f false ss r in
+     match src with
+     | SrcLight n => let* (x, s2) := eval_rval rt mt f false s1 n in match x with VNone => RErr EAssert s2 | _ => ROk (x :: rest) s2 end
+     | SrcGroup n => let* (x, s2) := eval_rval rt mt f false s1 n in
+                     ROk (match set_members OD_GROUP (s_world s2) x with Some l => map VStr l | None => [] end ++ rest) s2
+     | SrcLocation n => let* (x, s2) := eval_rval rt mt f false s1 n in
+                        ROk (match set_members OD_LOCATION (s_world s2) x with Some l => map VStr l | None => [] end ++ rest) s2
+     end)) by reflexivity.
+  rewrite E. clear E. destruct (eval_srcs rt mt f false ss r) as [rest s1|e s1|s1]; cbn [sbind]; try reflexivity.
+  destruct src as [n|n|n]; cbn [src_values]; destruct (eval_rval rt mt f false s1 n) as [x s2|e s2|s2]; cbn [sbind]; try reflexivity.
+  - destruct x; reflexivity.
+  - unfold members_of. destruct (set_members OD_GROUP (s_world s2) x); reflexivity.
+  - unfold members_of. destruct (set_members OD_LOCATION (s_world s2) x); reflexivity.
+Qed.
+
+Lemma c_src_no_routine src : plain_src src = true -> forallb not_routine (c_src rt mt src) = true.
+Proof.
+  destruct src as [n|n|n]; cbn [plain_src c_src]; intros H.
+  - rewrite !forallb_app, (c_rval_no_routine rt mt n (DReg R_RESULT) H (plain_ok_result mt n H)). reflexivity.
+  - rewrite forallb_app, (c_rval_lv_no_routine rt mt LV_FIRST n H). reflexivity.
+  - rewrite forallb_app, (c_rval_lv_no_routine rt mt LV_FIRST n H). reflexivity.
+Qed.
+
+Lemma src_run src : plain_src src = true ->
+  forall f ss own s1 im s lv d r k,
+  src_values src f ss = ROk own s1 ->
+  sim ss s -> m_frames s = FLoop lv d :: r -> lv_get lv LV_COUNTER = Some (VInt k) -> lv_get lv LV_INCR = None ->
+  code_at im (m_pc s) (c_src rt mt src) ->
+  s1 = ss /\ exists n s' lv', esteps n im s = Some (s', []) /\ sim ss s' /\ m_pc s' = m_pc s + zlength (c_src rt mt src) /\
+             m_frames s' = FLoop lv' d :: r /\ m_stack s' = own ++ m_stack s /\
+             lv_get lv' LV_COUNTER = Some (VInt (k + Z.of_nat (length own))) /\ lv_get lv' LV_INCR = None.
+Proof.
+  intros Hp f ss own s1 im s lv d r k He Hsim Hfr HlC HlI Hc.
+  destruct src as [n|n|n]; cbn [plain_src src_values c_src] in *.
+  - (* one light: its value goes to RESULT, onto the stack, and is counted *)
+    destruct (eval_rval rt mt f false ss n) as [x s2|e s2|s2] eqn:Ev; cbn [sbind] in He; try discriminate.
+    apply code_at_app in Hc. destruct Hc as [Hcv Hc]. apply code_at_app in Hc. destruct Hc as [Hpush Hadd]. cbn [code_at] in Hpush. destruct Hpush as [Hfp _].
+    rewrite zlength1 in Hadd.
+    destruct (c_rval_runs rt mt n (DReg R_RESULT) Hp (plain_ok_result mt n Hp) im ss s x s2 f Hsim Hcv Ev) as [-> [n1 E1]].
+    set (kV := zlength (c_rval rt mt n (DReg R_RESULT))) in *.
+    assert (Hx : x <> VNone /\ own = [x] /\ s1 = ss) by (destruct x; try discriminate; injection He as <- <-; repeat split; discriminate).
+    destruct Hx as (Hnx & -> & ->). split; [reflexivity|].
+    set (sa := put_vm s (DReg R_RESULT) x kV) in *.
+    assert (Hsa : sim ss sa) by (apply sim_put_reg_hidden; [exact Hsim|reflexivity|reflexivity]).
+    assert (Hfa : fetch im (m_pc sa) = Some (push_of (PReg R_RESULT))) by exact Hfp.
+    assert (Hoa : operand sa (PReg R_RESULT) = Some x) by (cbn [operand register_eqb]; unfold sa; cbn [put_vm m_regs]; apply rf_get_set_same).
+    pose proof (push_step im sa (PReg R_RESULT) x Hfa Hoa Hnx) as E2.
+    set (sb := advance (with_stack sa (x :: m_stack sa))) in *.
+    assert (Hsb : sim ss sb) by (destruct Hsa; constructor; assumption).
+    assert (Hfrb : m_frames sb = FLoop lv d :: r) by exact Hfr.
+    assert (E3 : esteps 4 im sb = Some (with_lv sb LV_COUNTER (VInt (k + 1)) 4, [])).
+    { apply (lv_group im sb (PLoopVar LV_COUNTER) (PInt 1) OP_ADD LV_COUNTER (VInt k) (VInt 1) (VInt (k + 1)) lv d r); try reflexivity; try discriminate.
+      - exact Hadd.
+      - exact Hfrb.
+      - cbn [operand]. unfold get_loopvar. rewrite Hfrb, HlC. reflexivity. }
+    exists (n1 + (1 + 4))%nat, (with_lv sb LV_COUNTER (VInt (k + 1)) 4), (lv_set lv LV_COUNTER (VInt (k + 1))).
+    split; [replace (@nil event) with (@nil event ++ (@nil event ++ @nil event)) by reflexivity; eapply esteps_app; [exact E1|eapply esteps_app; [exact E2|exact E3]]|].
+    split; [apply sim_with_lv; exact Hsb|].
+    split; [cbn [with_lv sb advance with_pc with_stack sa put_vm m_pc]; unfold zlength; rewrite !app_length, !Nat2Z.inj_add; fold (zlength (c_rval rt mt n (DReg R_RESULT))); fold kV; cbn [length op_equals]; lia|].
+    split; [cbn [with_lv m_frames]; rewrite Hfrb; reflexivity|]. split; [reflexivity|].
+    split; [apply lv_get_set|rewrite lv_get_set_other by reflexivity; exact HlI].
+  - (* a group: its name to FIRST, then the scan over its members *)
+    destruct (eval_rval rt mt f false ss n) as [x s2|e s2|s2] eqn:Ev; cbn [sbind] in He; try discriminate.
+    apply code_at_app in Hc. destruct Hc as [Hcv Hsc].
+    destruct (lv_init rt mt LV_FIRST n Hp im ss s x s2 f lv d r Hsim Hfr Hcv Ev) as [-> [n1 E1]]. injection He as <- <-. split; [reflexivity|].
+    set (kV := zlength (c_rval rt mt n (DLoop LV_FIRST))) in *. set (sa := with_lv s LV_FIRST x kV) in *.
+    assert (Hsa : sim ss sa) by (apply sim_with_lv; exact Hsim).
+    assert (Hfra : m_frames sa = FLoop (lv_set lv LV_FIRST x) d :: r) by (unfold sa; cbn [with_lv m_frames]; rewrite Hfr; reflexivity).
+    assert (Hsca : code_at im (m_pc sa) (scan_members OD_GROUP)) by exact Hsc.
+    destruct (scan_members_names im ss sa OD_GROUP _ d r k x (or_introl eq_refl) Hsa Hfra ltac:(rewrite lv_get_set_other by reflexivity; exact HlC) (lv_get_set _ _ _) Hsca)
+      as (n2 & s' & lv' & E2 & Hs' & Hpc' & Hfr' & Hst' & HlC' & HlI').
+    assert (Hw : m_world sa = s_world ss) by exact (sim_world _ _ Hsim). rewrite Hw in Hst', HlC'.
+    exists (n1 + n2)%nat, s', lv'. split; [replace (@nil event) with (@nil event ++ @nil event) by reflexivity; eapply esteps_app; [exact E1|exact E2]|].
+    split; [exact Hs'|]. split; [rewrite Hpc'; unfold sa; cbn [with_lv m_pc]; unfold zlength; rewrite app_length, Nat2Z.inj_add; fold (zlength (c_rval rt mt n (DLoop LV_FIRST))); fold kV; change (Z.of_nat (length (scan_members OD_GROUP))) with 16; lia|].
+    split; [exact Hfr'|]. split; [exact Hst'|]. split; [rewrite HlC', map_length; reflexivity|rewrite HlI', lv_get_set_other by reflexivity; exact HlI].
+  - (* a location *)
+    destruct (eval_rval rt mt f false ss n) as [x s2|e s2|s2] eqn:Ev; cbn [sbind] in He; try discriminate.
+    apply code_at_app in Hc. destruct Hc as [Hcv Hsc].
+    destruct (lv_init rt mt LV_FIRST n Hp im ss s x s2 f lv d r Hsim Hfr Hcv Ev) as [-> [n1 E1]]. injection He as <- <-. split; [reflexivity|].
+    set (kV := zlength (c_rval rt mt n (DLoop LV_FIRST))) in *. set (sa := with_lv s LV_FIRST x kV) in *.
+    assert (Hsa : sim ss sa) by (apply sim_with_lv; exact Hsim).
+    assert (Hfra : m_frames sa = FLoop (lv_set lv LV_FIRST x) d :: r) by (unfold sa; cbn [with_lv m_frames]; rewrite Hfr; reflexivity).
+    assert (Hsca : code_at im (m_pc sa) (scan_members OD_LOCATION)) by exact Hsc.
+    destruct (scan_members_names im ss sa OD_LOCATION _ d r k x (or_intror eq_refl) Hsa Hfra ltac:(rewrite lv_get_set_other by reflexivity; exact HlC) (lv_get_set _ _ _) Hsca)
+      as (n2 & s' & lv' & E2 & Hs' & Hpc' & Hfr' & Hst' & HlC' & HlI').
+    assert (Hw : m_world sa = s_world ss) by exact (sim_world _ _ Hsim). rewrite Hw in Hst', HlC'.
+    exists (n1 + n2)%nat, s', lv'. split; [replace (@nil event) with (@nil event ++ @nil event) by reflexivity; eapply esteps_app; [exact E1|exact E2]|].
+    split; [exact Hs'|]. split; [rewrite Hpc'; unfold sa; cbn [with_lv m_pc]; unfold zlength; rewrite app_length, Nat2Z.inj_add; fold (zlength (c_rval rt mt n (DLoop LV_FIRST))); fold kV; change (Z.of_nat (length (scan_members OD_LOCATION))) with 16; lia|].
+    split; [exact Hfr'|]. split; [exact Hst'|]. split; [rewrite HlC', map_length; reflexivity|rewrite HlI', lv_get_set_other by reflexivity; exact HlI].
+Qed.
+
+Lemma srcs_run : forall srcs, forallb plain_src srcs = true ->
+  forall f ss names s1 im s lv d r k,
+  eval_srcs rt mt f false ss srcs = ROk names s1 ->
+  sim ss s -> m_frames s = FLoop lv d :: r -> lv_get lv LV_COUNTER = Some (VInt k) -> lv_get lv LV_INCR = None ->
+  code_at im (m_pc s) (flat_map (c_src rt mt) (rev srcs)) ->
+  s1 = ss /\ exists n s' lv', esteps n im s = Some (s', []) /\ sim ss s' /\ m_pc s' = m_pc s + zlength (flat_map (c_src rt mt) (rev srcs)) /\
+             m_frames s' = FLoop lv' d :: r /\ m_stack s' = names ++ m_stack s /\
+             lv_get lv' LV_COUNTER = Some (VInt (k + Z.of_nat (length names))) /\ lv_get lv' LV_INCR = None.
+Proof.
+  induction srcs as [|src rs IH]; intros Hp f ss names s1 im s lv d r k He Hsim Hfr HlC HlI Hc.
+  - destruct f as [|f]; [discriminate|]. rewrite eval_srcs_nil in He. injection He as <- <-. split; [reflexivity|].
+    exists 0%nat, s, lv. split; [reflexivity|]. split; [exact Hsim|]. split; [cbn; lia|]. split; [exact Hfr|]. split; [reflexivity|].
+    split; [rewrite HlC; f_equal; f_equal; cbn [length]; lia|exact HlI].
+  - cbn [forallb] in Hp. apply andb_true_iff in Hp. destruct Hp as [Hps Hpr].
+    destruct f as [|f]; [discriminate|]. rewrite eval_srcs_cons in He.
+    destruct (eval_srcs rt mt f false ss rs) as [rest sa|e sa|sa] eqn:Er; cbn [sbind] in He; try discriminate.
+    destruct (src_values src f sa) as [own sb|e sb|sb] eqn:Eo; cbn [sbind] in He; try discriminate. injection He as <- <-.
+    cbn [rev] in Hc |- *. rewrite flat_map_app in Hc |- *. cbn [flat_map] in Hc |- *. rewrite app_nil_r in Hc |- *.
+    apply code_at_app in Hc. destruct Hc as [Hc1 Hc2].
+    destruct (IH Hpr f ss rest sa im s lv d r k Er Hsim Hfr HlC HlI Hc1) as [-> (n1 & s2 & lv2 & E1 & Hs2 & Hpc2 & Hfr2 & Hst2 & HlC2 & HlI2)].
+    assert (Hc2' : code_at im (m_pc s2) (c_src rt mt src)) by (rewrite Hpc2; exact Hc2).
+    destruct (src_run src Hps f ss own sb im s2 lv2 d r _ Eo Hs2 Hfr2 HlC2 HlI2 Hc2') as [-> (n2 & s3 & lv3 & E2 & Hs3 & Hpc3 & Hfr3 & Hst3 & HlC3 & HlI3)].
+    split; [reflexivity|]. exists (n1 + n2)%nat, s3, lv3.
+    split; [replace (@nil event) with (@nil event ++ @nil event) by reflexivity; eapply esteps_app; [exact E1|exact E2]|].
+    split; [exact Hs3|]. split; [rewrite Hpc3, Hpc2; unfold zlength; rewrite app_length, Nat2Z.inj_add; lia|].
+    split; [exact Hfr3|]. split; [rewrite Hst3, Hst2, app_assoc; reflexivity|].
+    split; [rewrite HlC3; f_equal; f_equal; rewrite app_length, Nat2Z.inj_add; lia|exact HlI3].
+Qed.
+
+Definition lin_pre (srcs : list light_src) (w : option loop_with) : program :=
+  [I2 OC_MOVEQ (PInt 0) (PLoopVar LV_COUNTER)] ++ flat_map (c_src rt mt) (rev srcs) ++ with_code w.
+
+Lemma lin_form srcs x w : forallb plain_src srcs = true -> plain_with_opt w = true -> light_form (LIn srcs x w) x (with_ov w) (lin_pre srcs w).
+Proof.
+  intros Hps Hpw. split; [intros body; destruct w as [[v a b|v st]|]; reflexivity|]. split.
+  { unfold lin_pre. rewrite !forallb_app.
+    assert (Hs : forallb not_routine (flat_map (c_src rt mt) (rev srcs)) = true).
+    { assert (Hr : forallb plain_src (rev srcs) = true) by (apply forallb_forall; intros y Hy; apply (proj1 (forallb_forall _ _) Hps); apply in_rev; exact Hy).
+      revert Hr. generalize (rev srcs). intros l. induction l as [|y t IHt]; intros H; [reflexivity|]. cbn [forallb flat_map] in *. apply andb_true_iff in H. destruct H as [Hy Ht].
+      rewrite forallb_app, (c_src_no_routine y Hy), (IHt Ht). reflexivity. }
+    rewrite Hs. destruct w as [w'|]; [cbn [with_code plain_with_opt] in *; rewrite (c_with_no_routine rt mt w' Hpw)|]; reflexivity. }
+  intros f0 ss body sig ss' im s d r He Hsim Hfr Hc.
+  destruct f0 as [|[|f]]; try discriminate.
+  assert (E : Sem.exec rt mt (S (S f)) false ss (SRepeat (LIn srcs x w) body) =
+              (let* (names, s1) := eval_srcs rt mt f false ss srcs in light_loop_values rt mt f false s1 names x w body)) by reflexivity.
+  rewrite E in He. clear E.
+  destruct (eval_srcs rt mt f false ss srcs) as [names sa|e sa|sa] eqn:Es; cbn [sbind] in He; try discriminate.
+  destruct f as [|f]; [discriminate|].
+  assert (E : light_loop_values rt mt (S f) false sa names x w body =
+              (let cnt := VInt (Z.of_nat (length names)) in
+               match w with
+               | None => iterate rt mt f false sa None (Some cnt) None (Some (x, names)) body
+               | Some w' => let* (vi, s1) := prep_with rt mt f false sa cnt w' in iterate rt mt f false s1 None (Some cnt) (Some vi) (Some (x, names)) body
+               end)) by reflexivity.
+  rewrite E in He. clear E. cbv zeta in He. set (cnt := VInt (Z.of_nat (length names))) in *.
+  unfold lin_pre in Hc |- *. apply code_at_app in Hc. destruct Hc as [Hz Hc]. cbn [code_at] in Hz. destruct Hz as [Hfz _]. rewrite zlength1 in Hc.
+  apply code_at_app in Hc. destruct Hc as [Hsc Hw].
+  pose proof (moveq_lv_step im s LV_COUNTER 0 [] d r Hfz Hfr) as E0.
+  set (s1 := with_lv s LV_COUNTER (VInt 0) 1) in *.
+  assert (Hs1 : sim ss s1) by (apply sim_with_lv; exact Hsim).
+  assert (Hfr1 : m_frames s1 = FLoop (lv_set [] LV_COUNTER (VInt 0)) d :: r) by (unfold s1; cbn [with_lv m_frames]; rewrite Hfr; reflexivity).
+  assert (Hsc1 : code_at im (m_pc s1) (flat_map (c_src rt mt) (rev srcs))) by exact Hsc.
+  destruct (srcs_run srcs Hps (S f) ss names sa im s1 _ d r 0 Es Hs1 Hfr1 (lv_get_set _ _ _) eq_refl Hsc1)
+    as [-> (n2 & s2 & lv2 & E2 & Hs2 & Hpc2 & Hfr2 & Hst2 & HlC2 & HlI2)].
+  assert (Hcnt : VInt (0 + Z.of_nat (length names)) = cnt) by reflexivity. rewrite Hcnt in HlC2.
+  set (kS := zlength (flat_map (c_src rt mt) (rev srcs))) in *.
+  assert (Hpc2' : m_pc s2 = m_pc s + 1 + kS) by (rewrite Hpc2; reflexivity).
+  destruct w as [w'|]; cbn [with_code with_ov plain_with_opt] in *.
+  - destruct (prep_with rt mt f false ss cnt w') as [vi sp|e sp|sp] eqn:Ep; cbn [sbind] in He; try discriminate.
+    assert (Hw2 : code_at im (m_pc s2) (fst (c_with rt mt w'))) by (rewrite Hpc2'; exact Hw).
+    destruct (with_prep rt mt w' Hpw im ss s2 cnt vi sp f lv2 d r Hs2 Hfr2 HlC2 HlI2 Hw2 Ep) as (Hv & Htr & n3 & s3 & lv3 & r3 & E3 & Hs3 & Hpc3 & Hfr3 & Her3 & Hst3 & HlC3 & HlI3).
+    exists f, names, (Some vi), sp, (1 + (n2 + n3))%nat, s3, lv3, r3.
+    split; [lia|]. split; [exact He|].
+    split; [destruct vi as [v' incr]; cbn [idx_ok fst snd] in *; split; [rewrite Hv, c_with_var; reflexivity|exact HlI3]|].
+    split; [exact Htr|].
+    split; [replace (@nil event) with (@nil event ++ (@nil event ++ @nil event)) by reflexivity; eapply esteps_app; [exact E0|eapply esteps_app; [exact E2|exact E3]]|].
+    split; [exact Hs3|].
+    split; [rewrite Hpc3, Hpc2'; unfold zlength; rewrite !app_length, !Nat2Z.inj_add; fold (zlength (flat_map (c_src rt mt) (rev srcs))); fold kS; cbn [length]; unfold zlength; lia|].
+    split; [exact Hfr3|]. split; [exact Her3|]. split; [rewrite Hst3; exact Hst2|exact HlC3].
+  - exists f, names, None, ss, (1 + n2)%nat, s2, lv2, r.
+    split; [lia|]. split; [exact He|]. split; [exact I|]. split; [reflexivity|].
+    split; [replace (@nil event) with (@nil event ++ @nil event) by reflexivity; eapply esteps_app; [exact E0|exact E2]|].
+    split; [exact Hs2|].
+    split; [rewrite Hpc2'; rewrite app_nil_r; unfold zlength; rewrite !app_length, !Nat2Z.inj_add; fold (zlength (flat_map (c_src rt mt) (rev srcs))); fold kS; cbn [length]; lia|].
+    split; [exact Hfr2|]. split; [reflexivity|]. split; [exact Hst2|exact HlC2].
 Qed.
 
 End LightLoop.
